@@ -23,6 +23,10 @@ package container
 //   Hole: the one name (if HasHole) that is marked in creation but whose early-reference factory is not registered yet
 //@ ghost field (SingletonComponentRegistry) HasHole bool
 //@ ghost field (SingletonComponentRegistry) Hole string
+//   Universe: a finite set of names chosen by the client before it starts a creation (the factory takes the names
+//   that have a definition). No registry operation assigns it. It only serves the termination measure: creations nest
+//   at most once per name of the universe that is not yet in creation (Remaining), plus one level for a name outside.
+//@ ghost field (SingletonComponentRegistry) Universe map[string]bool
 
 // Ghost attributes of a factory callback: which protocol role it plays, for which name, on which registry.
 //@ ghost field (SingletonFactory) Role int
@@ -59,7 +63,9 @@ package container
 // ---- creation callbacks -------------------------------------------------------------------------------
 
 //@ method (SingletonFactory).GetComponent
-//@ property C04
+//@ property C04 C02
+//@ decreases self.Role == RoleCreator(), ite(self.Role == RoleCreator(), Remaining(self.Reg.Universe, self.Reg.IC), 0), self.Role == RoleCreator() && self.Reg.Universe[self.ForName], 5
+//@ terminates
 //@ requires [cb-inv] RegInv(self.Reg)
 //@ requires [factory-sees-mark] implies(self.Role == RoleCreator(), self.Reg.IC[self.ForName] && self.Reg.HasHole && self.Reg.Hole == self.ForName)
 //@ requires [early-ref-no-hole] implies(self.Role == RoleEarlyRef(), !self.Reg.HasHole)
@@ -76,6 +82,8 @@ package container
 
 //@ method (SingletonComponentRegistry).GetSingleton
 //@ property C04 C01 C03 C02
+//@ decreases 0, 1, 0, 0
+//@ terminates
 //@ requires [inv] RegInv(self)
 //@ requires [no-hole] !self.HasHole || !allowEarlyReference
 //@ assigns RegFrame(self), CreationFrame()
@@ -94,6 +102,8 @@ package container
 
 //@ method (SingletonComponentRegistry).GetSingletonOrCreateByFactory
 //@ property C04 C01 C03 C02
+//@ decreases 1, Remaining(self.Universe, self.IC), 1, 0
+//@ terminates
 //@ requires [inv] RegInv(self)
 //@ requires [not-creating] !self.IC[name]
 //@ requires [no-hole] !self.HasHole
@@ -123,6 +133,7 @@ package container
 //@ ensures [publishes-whole-view] self.L1Dom == store(old(self.L1Dom), name, true) && self.L1 == store(old(self.L1), name, meta) && self.L2Dom == store(old(self.L2Dom), name, false) && self.L3Dom == store(old(self.L3Dom), name, false)
 
 //@ method (SingletonComponentRegistry).AddSingletonFactory
+//@ terminates
 //@ property C04 C01 C03 C02
 //@ requires [inv] RegInv(self)
 //@ requires [early-factory] method != nil && method.Role == RoleEarlyRef() && method.ForName == name && method.Reg == self
@@ -143,6 +154,7 @@ package container
 //@ ensures [removes-whole-view] self.L1Dom == store(old(self.L1Dom), name, false) && self.L2Dom == store(old(self.L2Dom), name, false) && self.L3Dom == store(old(self.L3Dom), name, false) && self.IC == store(old(self.IC), name, false)
 
 //@ method (SingletonComponentRegistry).IsSingletonCurrentlyInCreation
+//@ terminates
 //@ property C04 C01 C03 C02
 //@ requires [inv] RegInv(self)
 //@ assigns nothing
@@ -153,6 +165,7 @@ package container
 // is invoked by them; Refresh sets Refreshed exactly when it succeeds.
 
 //@ method (Factory).PrepareComponents
+//@ terminates
 //@ property C13 C09
 //@ assigns everything
 //@ ensures [failure-surfaces] implies(result == nil, Failed == old(Failed))
@@ -160,6 +173,7 @@ package container
 //@ ensures [not-refreshed] Refreshed == old(Refreshed)
 
 //@ method (Factory).Refresh
+//@ terminates
 //@ property C13 C09
 //@ assigns everything
 //@ ensures [failure-surfaces] implies(result == nil, Failed == old(Failed))
@@ -193,6 +207,7 @@ package container
 // What the container owes a post-processor (requires) and what the call does to the trace (ensures).
 // A-CALLBACK: post-processors return a non-nil component when they succeed and do not write container-internal state.
 //@ method (ComponentPostProcessor).PostProcessBeforeInitialization
+//@ terminates
 //@ property C05 C09
 //@ requires [populate-before-initialize] St[componentName] == 1
 //@ assigns BeforeLen, BeforeAt, Failed
@@ -201,6 +216,7 @@ package container
 //@ ensures [failure-recorded] Failed == (old(Failed) || result1 != nil)
 
 //@ method (ComponentPostProcessor).PostProcessAfterInitialization
+//@ terminates
 //@ property C05 C09
 //@ requires [init-methods-before-after-processors] St[componentName] == 5 || ShortCircuit[componentName]
 //@ assigns AfterLen, AfterAt, Failed
@@ -217,6 +233,7 @@ package container
 //@ spec func DefInv(d DefinitionRegistry) bool = d != nil && d.DefRep && forall(n, string, implies(d.DefDom[n], n != "" && MetaOK(d.Def[n]) && d.Def[n].Name() == n), d.DefDom[n])
 
 //@ method (DefinitionRegistry).GetMetaByName
+//@ terminates
 //@ property C07 C01
 //@ requires [inv] DefInv(self)
 //@ assigns nothing
@@ -230,18 +247,21 @@ package container
 
 // ---- instantiation-aware processors (C05, C09, C18): all three run before the component's initialization ---------
 //@ method (InstantiationAwareComponentPostProcessor).PostProcessBeforeInstantiation
+//@ terminates
 //@ property C05 C09
 //@ requires [before-population] St[componentName] == 0
 //@ assigns Failed
 //@ ensures [failure-recorded] Failed == (old(Failed) || result1 != nil)
 
 //@ method (InstantiationAwareComponentPostProcessor).PostProcessAfterInstantiation
+//@ terminates
 //@ property C05 C09
 //@ requires [before-population] St[componentName] == 0
 //@ assigns Failed
 //@ ensures [failure-recorded] Failed == (old(Failed) || result1 != nil)
 
 //@ method (InstantiationAwareComponentPostProcessor).PostProcessProperties
+//@ terminates
 //@ property C05 C09 C18
 //@ requires [properties-before-initialization] St[componentName] == 0
 //@ assigns CreationFrame()
@@ -250,6 +270,7 @@ package container
 //@ ensures [properties-traced] PropsLen == store(old(PropsLen), componentName, old(PropsLen[componentName]) + 1) && PropsAt == store(old(PropsAt), componentName, store(old(PropsAt[componentName]), old(PropsLen[componentName]), toany(self))) && PropsPos == old(PropsPos)
 
 //@ method (SmartInstantiationAwareBeanPostProcessor).GetEarlyBeanReference
+//@ terminates
 //@ property C03 C09
 //@ assigns Failed
 //@ ensures [returns-component] implies(result1 == nil && component != nil, result0 != nil)
@@ -259,6 +280,7 @@ package container
 // occurs, none twice; the order is unspecified (for all orders).
 //@ ghost var MetasPos map[string]int
 //@ method (DefinitionRegistry).GetMetas
+//@ terminates
 //@ property C06 C10
 //@ requires [inv] DefInv(self)
 //@ assigns MetasPos, MetasKey
@@ -287,11 +309,13 @@ package container
 //@ ensures [implements-interface] result == RImplements(RTypeOf(m.Value), typ)
 
 //@ func Type
+//@ terminates
 //@ property C06
 //@ assigns nothing
 //@ ensures [exact-type-predicate] result != nil && forall(m, *component_definition.Meta, call(result, m) == (RTypeOf(m.Value) == typ) && callpre(result, m) == MetaOK(m))
 
 //@ func InterfaceType
+//@ terminates
 //@ property C06
 //@ assigns nothing
 //@ ensures [implements-predicate] result != nil && forall(m, *component_definition.Meta, call(result, m) == RImplements(RTypeOf(m.Value), typ) && callpre(result, m) == MetaOK(m))
@@ -331,21 +355,25 @@ package container
 //@ loop 1 invariant [all-so-far] 0 <= _done && _done <= len(opts) && forall(i, int, implies(0 <= i && i < _done, call(opts[i], m)))
 
 //@ func FuncName
+//@ terminates
 //@ property C06
 //@ assigns nothing
 //@ ensures [method-predicate] result != nil && forall(m, *component_definition.Meta, implies(callpre(result, m) && call(result, m), RHasMethod(RTypeOf(m.Value), fn)) && callpre(result, m) == (MetaOK(m) && m.Type != nil))
 
 //@ func FuncNameAndResult
+//@ terminates
 //@ property C06
 //@ assigns nothing
 //@ ensures [method-predicate] result != nil && forall(m, *component_definition.Meta, implies(callpre(result, m) && call(result, m), RHasMethod(RTypeOf(m.Value), fn)) && callpre(result, m) == MetaOK(m))
 
 //@ func Or
+//@ terminates
 //@ property C06
 //@ assigns nothing
 //@ ensures [any-of] result != nil && forall(m, *component_definition.Meta, call(result, m) == exists(i, int, 0 <= i && i < len(opts) && call(opts[i], m))) && forall(m, *component_definition.Meta, callpre(result, m) == (MetaOK(m) && forall(i, int, implies(0 <= i && i < len(opts), opts[i] != nil && callpre(opts[i], m)))))
 
 //@ func And
+//@ terminates
 //@ property C06 C10
 //@ assigns nothing
 //@ ensures [all-of] result != nil && forall(m, *component_definition.Meta, call(result, m) == forall(i, int, implies(0 <= i && i < len(opts), call(opts[i], m)))) && forall(m, *component_definition.Meta, callpre(result, m) == (MetaOK(m) && forall(i, int, implies(0 <= i && i < len(opts), opts[i] != nil && callpre(opts[i], m)))))
@@ -354,16 +382,19 @@ package container
 //@ ghost field (Factory) WiredRegistry SingletonRegistry
 //@ ghost field (Factory) WiredConfigure configure.Configure
 //@ method (Factory).SetRegistry
+//@ terminates
 //@ property C09
 //@ assigns self.WiredRegistry
 //@ ensures [registry-wired] self.WiredRegistry == r
 //@ method (Factory).SetConfigure
+//@ terminates
 //@ property C09
 //@ assigns self.WiredConfigure
 //@ ensures [configure-wired] self.WiredConfigure == c
 // Registering a singleton records it (A-CALLBACK for foreign registries); the built-in one is proved in container/support.
 //@ ghost field (SingletonRegistry) Registered map[string]any
 //@ method (SingletonRegistry).RegisterSingleton
+//@ terminates
 //@ property C09
 //@ assigns self.Registered
 
@@ -381,16 +412,20 @@ package container
 //@ ghost var ScanBase int
 
 //@ method (DefinitionRegistryPostProcessor).PostProcessDefinitionRegistry
+//@ terminates
 //@ property C09 C11 C20
 //@ requires [registry-given] registry != nil
 //@ assigns ScanRegion[componentName]
 
 //@ method (Factory).GetRegisteredComponents
+//@ terminates
 //@ assigns nothing
 //@ method (Factory).GetDefinitionRegistryPostProcessors
+//@ terminates
 //@ assigns nothing
 //@ ensures [processors-non-nil] forall(i, int, implies(0 <= i && i < len(result), result[i] != nil), result[i])
 //@ method (Factory).GetDefinitionRegistry
+//@ terminates
 //@ assigns nothing
 //@ ensures [registry-present] result != nil && result == self.DefRegistry
 
@@ -407,25 +442,30 @@ package container
 // ---- factory preparation (C09, C18, C05): collecting processors, wiring them, scanning, sorting ------------------------
 //@ ghost field (Factory) DefRegistry DefinitionRegistry
 //@ method (Factory).GetConfigure
+//@ terminates
 //@ assigns nothing
 //@ ensures [configure] result == self.WiredConfigure
 
 // A component-factory post-processor (A-CALLBACK) only stores what it needs from the factory in its own fields.
 //@ method (ComponentFactoryPostProcessor).PostProcessComponentFactory
+//@ terminates
 //@ property C09
 //@ requires [factory-given] factory != nil
 //@ assigns ProcessorWiring(), Failed
 //@ ensures [failure-recorded] Failed == (old(Failed) || result != nil)
 
 //@ method (SingletonRegistry).GetSingletonNames
+//@ terminates
 //@ assigns nothing
 //@ method (SingletonRegistry).GetSingleton
+//@ terminates
 //@ assigns nothing
 //@ ensures [found-or-error] implies(result1 == nil, result0 != nil)
 
 // Creating a component through the Factory interface touches registries and the creation frame, nothing else.
-//@ frame AnyRegFrame() = anyfield(SingletonComponentRegistry, L1Dom), anyfield(SingletonComponentRegistry, L1), anyfield(SingletonComponentRegistry, L2Dom), anyfield(SingletonComponentRegistry, L2), anyfield(SingletonComponentRegistry, L3Dom), anyfield(SingletonComponentRegistry, L3), anyfield(SingletonComponentRegistry, IC), anyfield(SingletonComponentRegistry, EarlyRuns), anyfield(SingletonComponentRegistry, Creates), anyfield(SingletonComponentRegistry, HasHole), anyfield(SingletonComponentRegistry, Hole)
+//@ frame AnyRegFrame() = anyfield(SingletonComponentRegistry, L1Dom), anyfield(SingletonComponentRegistry, L1), anyfield(SingletonComponentRegistry, L2Dom), anyfield(SingletonComponentRegistry, L2), anyfield(SingletonComponentRegistry, L3Dom), anyfield(SingletonComponentRegistry, L3), anyfield(SingletonComponentRegistry, IC), anyfield(SingletonComponentRegistry, EarlyRuns), anyfield(SingletonComponentRegistry, Creates), anyfield(SingletonComponentRegistry, HasHole), anyfield(SingletonComponentRegistry, Hole), anyfield(SingletonComponentRegistry, Universe)
 //@ method (Factory).GetComponentByName
+//@ terminates
 //@ property C09 C01
 //@ assigns AnyRegFrame(), CreationFrame()
 //@ ensures [failure-surfaces] implies(result1 == nil, Failed == old(Failed))
